@@ -2,5 +2,5 @@ SPECIFICATION Spec
 CONSTANTS Procs = {1, 2, 3} Keys = {"a"} MaxOps = 2 Defect = "none"
   MapOps = {}
   AtomOps = {"getorcreate", "get", "adelete", "aclear", "hadd", "hload"}
-INVARIANTS LinOK OneWinner SameHandle NoLostAdd MutualExclusion ImplMatchesAbs
+INVARIANTS LinOK OneWinner SameHandle NoLostAdd MutualExclusion ImplMatchesAbs LockHeldOnlyInBody NoStuckWaiter
 CHECK_DEADLOCK FALSE
